@@ -27,7 +27,8 @@ def register(m):
     m("C19", "c19-page-collision", A, "from sympy import (Eq, solve)", "from sympy import (Eq, solve)", "D3",
       extra=[("symplyphysics/laws/dynamics/acceleration_is_force_over_mass/__init__.py", "", '"""\nX\n=\n"""\n', 0)],
       note="overlay adds a package next to the module")
-    m("C19", "c19-patcher-rule-changed", PATCH, "module.body.insert(1, _IMPORT_NODE)", "module.body.insert(2, _IMPORT_NODE)", "ERROR")
+    m("C19", "c19-patcher-rule-changed", PATCH, "module.body.insert(1, _IMPORT_NODE)", "module.body.insert(2, _IMPORT_NODE)", "SILENT",
+      note="was a refusal while the patcher was mirrored by a replica; the patcher is evaluated now, and for every module of the tree the import still precedes all inserted calls")
 
 
 _o19 = register
@@ -35,6 +36,7 @@ _o19 = register
 
 def register(m):
     _o19(m)
-    m("C19", "c19-patcher-keeps-one-more-node", PATCH, "    module.body = module.body[0:last_documented_node + 1]", "    module.body = module.body[0:last_documented_node + 2]", "ERROR")
-    m("C19", "c19-patcher-private-members-too", PATCH, "                    if str(name).startswith(\"_\"):\n                        continue\n", "", "ERROR")
+    m("C19", "c19-patcher-keeps-one-more-node", PATCH, "    module.body = module.body[0:last_documented_node + 1]", "    module.body = module.body[0:last_documented_node + 2]", ("D1", "ERROR"))
+    m("C19", "c19-patcher-private-members-too", PATCH, "                    if str(name).startswith(\"_\"):\n                        continue\n", "", "SILENT",
+      note="was a refusal while the patcher was mirrored; evaluated on every module of the tree, keeping private members changes nothing that D1-D4/D7 judge")
     m("C19", "c19-patcher-comment-only-ok", PATCH, "    # Delete code unrelated to documentation\n", "    # Drop the code that is unrelated to documentation (derivations, calculators)\n", "SILENT")
